@@ -49,6 +49,7 @@ def isTx : OOut → Bool
 
 /-- canonical order within one op: everything that is not a transmission first -/
 def canon (outs : List OOut) : List String :=
+  if outs.any (fun o => match o with | .panic => true | _ => false) then ["panic"] else
   (outs.filter (fun o => !isTx o)).map ooutStr ++ (outs.filter isTx).map ooutStr
 
 structure OSt where
